@@ -22,16 +22,11 @@ def one(name):
     from sa.rules import PROPERTIES
     d = os.path.join(VERIF, 'seeded', name)
     meta = json.load(open(os.path.join(d, 'meta.json')))
-    tmp = tempfile.mkdtemp(prefix='sa_seed_')
+    import scratch
+    tmp, how = scratch.make(os.path.join(d, 'patch.diff'), 'sa_seed_')
+    if tmp is None:
+        return name, meta['property'], None, f'patch does not apply: {how}'
     try:
-        for pkg in ('ml_pipeline_engine', 'ml_pipeline_viewer'):
-            shutil.copytree(os.path.join('/repo', pkg), os.path.join(tmp, pkg), ignore=shutil.ignore_patterns('__pycache__', 'node_modules', 'src'))
-        r = subprocess.run(['git', 'apply', '--unsafe-paths', f'--directory={tmp}', os.path.join(d, 'patch.diff')], cwd=tmp, capture_output=True, text=True)
-        if r.returncode != 0:
-            subprocess.run(['git', 'init', '-q', '.'], cwd=tmp)
-            r = subprocess.run(['git', 'apply', os.path.join(d, 'patch.diff')], cwd=tmp, capture_output=True, text=True)
-            if r.returncode != 0:
-                return name, meta['property'], None, f'patch does not apply: {r.stderr[:200]}'
         known = known_index(load_known())
         det, und = {}, {}
         for pid in sorted(PROPERTIES):
@@ -55,11 +50,19 @@ def main():
     with ProcessPoolExecutor(max_workers=16) as ex:
         results = list(ex.map(one, names))
     missed = 0
+    neutral = 0
     for name, pid, det, und in results:
         if det is None:
             print(f'{name:50s} ERROR {und}')
+            missed += 1
             continue
         ok = pid in det
+        neutralised = json.load(open(os.path.join(VERIF, 'seeded', name, 'meta.json'))).get('neutralised_by')
+        if neutralised:
+            # a later fix of /repo removed the fault this change relied on: it no longer breaks the property
+            neutral += 1
+            print(f'{name:50s} NEUTRALISED target={pid} {det} ({neutralised[:60]}...)')
+            continue
         missed += 0 if ok else 1
         if update:
             mp = os.path.join(VERIF, 'seeded', name, 'meta.json')
@@ -69,7 +72,8 @@ def main():
             meta['detected_for_target_property'] = ok
             json.dump(meta, open(mp, 'w'), indent=1)
         print(f'{name:50s} {"DETECTED" if ok else "MISSED  "} target={pid} {det}' + (f' undecided={und}' if und else ''))
-    print(f'{len(results) - missed}/{len(results)} seeded changes detected for their target property')
+    print(f'{len(results) - missed - neutral}/{len(results) - neutral} seeded changes detected for their target property'
+          + (f' ({neutral} neutralised by later fixes of /repo)' if neutral else ''))
     return 1 if missed else 0
 
 
